@@ -1,5 +1,5 @@
 use async_trait::async_trait;
-use easy_error::{bail, Error, ResultExt};
+use easy_error::{bail, err_msg, Error, ResultExt};
 use serde::{Deserialize, Serialize};
 use std::net::SocketAddr;
 use std::sync::Arc;
@@ -10,7 +10,7 @@ use tracing::{error, info, warn};
 use crate::common::h11c::h11c_handshake;
 use crate::common::set_keepalive;
 use crate::common::tls::TlsServerConfig;
-use crate::context::{make_buffered_stream, ContextRef};
+use crate::context::{make_buffered_stream, ContextRef, ContextRefOps};
 use crate::listeners::Listener;
 use crate::GlobalState;
 
@@ -68,8 +68,19 @@ impl HttpListener {
                     tokio::spawn(async move {
                         let res = match this.create_context(state, source, socket).await {
                             Ok(ctx) => {
-                                h11c_handshake(ctx, queue, |_, _| async { bail!("not supported") })
-                                    .await
+                                let res = h11c_handshake(ctx.clone(), queue, |_, _| async {
+                                    bail!("not supported")
+                                })
+                                .await;
+                                match res {
+                                    Err(e) => {
+                                        // the context is already registered: record how it ended
+                                        ctx.on_error(err_msg(format!("handshake failed: {}", e)))
+                                            .await;
+                                        Err(e)
+                                    }
+                                    ok => ok,
+                                }
                             }
                             Err(e) => Err(e),
                         };
